@@ -117,7 +117,16 @@ def _mk_crafty():
     return Crafty, SignalStep
 
 
-def build(spec, **extra_kwargs):
+def n_default_fields(spec):
+    """number of statistics columns the class produces by default (Iter, Time, [Objective], class columns)"""
+    c = spec["cls"]
+    n = 2 + (1 if spec.get("has_eval", True) else 0) + 2
+    if c == "admm":
+        n += {"generic": 2, "linearScicoCG": 2, "checked": 1}.get(spec.get("solver", "linearScicoCG"), 0)
+    return n
+
+
+def build(spec, _opts=None, **extra_kwargs):
     """construct the optimiser described by `spec` (fresh functionals, so call counters start at 0).
 
     spec keys: cls, n (size), block (bool: block-array variables), solver (admm only),
@@ -140,7 +149,8 @@ def build(spec, **extra_kwargs):
     kwargs = dict(spec.get("kwargs", {}))
     io_name = kwargs.pop("itstat_options", None)
     if io_name is not None:
-        kwargs["itstat_options"] = itstat_options(io_name)
+        # `_opts`: the caller's own options object (the same object may be handed to several optimisers)
+        kwargs["itstat_options"] = _opts if _opts is not None else itstat_options(io_name, spec)
     kwargs.update(extra_kwargs)
 
     y = snp.array(np.arange(1, n + 1, dtype=f64) / 4.0)
@@ -216,8 +226,20 @@ def display_opts(name):
     return d
 
 
-def itstat_options(name):
+def itstat_options(name, spec=None):
     """named statistics options (JSON-able reference to a dict that may hold a function)"""
+    if name == "custom-same":
+        # custom columns AND custom function, with as many columns as the class has by default (so that a
+        # default function used by mistake fits the record type and goes unnoticed by the constructor)
+        n = n_default_fields(spec) if spec is not None else 3
+        fields = {"Iter": "%d", "Time": "%8.2e", "Row": "%d"}
+        for q in range(3, n):
+            fields[f"P{q}"] = "%8.2e"
+        return {
+            "fields": fields,
+            "itstat_func": lambda obj: (obj.itnum, obj.timer.elapsed(), len(obj.itstat_object.iterations)) + tuple(-float(q) for q in range(3, n)),
+            "display": False,
+        }
     if name.startswith("disp:"):  # disp:<period>:<shift_cycles 0/1>:<overwrite 0/1>
         _, p, sh, ov = name.split(":")
         return {"display": True, "period": int(p), "shift_cycles": bool(int(sh)), "overwrite": bool(int(ov))}
@@ -339,7 +361,14 @@ def run_history(spec, ops, step_ticks, cb_ticks, clock0=0, ctl=None):
     clock = FakeClock(clock0)
     obs = []
     with installed(clock):
-        s = build(spec)
+        io_name = spec.get("kwargs", {}).get("itstat_options")
+        opts = itstat_options(io_name, spec) if io_name else None
+        snap = list(opts.items()) if opts is not None else None
+        earlier = [build(spec, _opts=opts) for _ in range(int(spec.get("reuse", 0)))] if opts is not None else []
+        s = build(spec, _opts=opts)
+        # the caller's dictionary after the constructions: same keys in the same order, same value objects
+        opts_unchanged = opts is None or (list(opts.keys()) == [k for k, _ in snap] and all(opts[k] is v for k, v in snap))
+        del earlier
         state = {"k": 0, "j": 0}
         orig_step = s.step
 
@@ -432,7 +461,8 @@ def run_history(spec, ops, step_ticks, cb_ticks, clock0=0, ctl=None):
             ) and len(tr) == len(hist[0])
         else:
             tr_ok = tr == []
-    return {"obs": obs, "names": names, "transpose_ok": tr_ok, "clock_reads": clock.reads, "header": header}
+    return {"obs": obs, "names": names, "transpose_ok": tr_ok, "clock_reads": clock.reads, "header": header,
+            "opts_unchanged": opts_unchanged}
 
 
 def _num(v):
